@@ -404,5 +404,8 @@ def rule_f(rep: Report, idx: SourceIndex) -> None:
 	tag_prop = idx.mod('rogw/tranp/syntax/node/node.py').func('Node.tag')
 	r.check('last_tag' in unparse(tag_prop.node), 'Node.tag-is-deindexed', tag_prop.where, 'Node.tag no longer returns the de-indexed last tag of the path')
 	lt = pm.func('EntryPath.last_tag')
-	r.check('self.last[0]' in unparse(lt.node), 'last_tag-strips-index', lt.where, 'EntryPath.last_tag no longer strips the [index] suffix (via __break_tag)')
+	ltx = closure(lt)
+	via_pair = any(isinstance(n, ast.Attribute) and unparse(n) == 'self.last' for n in nodes(ltx)) or has_call(ltx, '__break_tag')
+	whole = any(isinstance(n, ast.Return) and n.value is not None and unparse(n.value) == 'self.last' for n in nodes(ltx[0]))
+	r.check(via_pair and not whole, 'last_tag-strips-index', lt.where, 'EntryPath.last_tag no longer takes the tag part of self.last (tag, index), i.e. no longer strips the [index] suffix')
 	rep.extra_coverage['raw_element_comparisons'] = n_raw
